@@ -2,6 +2,7 @@ package core
 
 import (
 	"fmt"
+	"go/token"
 	"go/types"
 	"strings"
 
@@ -97,6 +98,9 @@ func CalleeKey(c ssa.CallInstruction) string {
 	case *ssa.Builtin:
 		return "builtin." + v.Name()
 	case *ssa.Function:
+		if fw := passThrough(v); fw != nil {
+			return CalleeKey(fw)
+		}
 		return FuncKey(v)
 	case *ssa.MakeClosure:
 		if f, ok := v.Fn.(*ssa.Function); ok {
@@ -107,6 +111,49 @@ func CalleeKey(c ssa.CallInstruction) string {
 		return FuncKey(f)
 	}
 	return "dynamic"
+}
+
+var passThroughCache = map[*ssa.Function]ssa.CallInstruction{}
+
+// passThrough: f is an exported-named method of an unexported type of the repository that hands ALL its parameters,
+// in order, to one call and returns that call's results (an adapter mirroring a collaborator's interface). A call of
+// f is a call of what it forwards to, with the same arguments in the same positions: CalleeKey answers with the key
+// of the forwarded call, so rule tables that name the collaborator's method keep applying at the adapter's call
+// sites. (Unexported helpers of that shape are virtually inlined instead.)
+func passThrough(f *ssa.Function) ssa.CallInstruction {
+	if c, ok := passThroughCache[f]; ok {
+		return c
+	}
+	passThroughCache[f] = nil
+	if f == nil || f.Blocks == nil || !token.IsExported(f.Name()) || !thinForwarder(f) || !strings.HasPrefix(PkgPath(f), Module) {
+		return nil
+	}
+	var call *ssa.Call
+	for _, in := range f.Blocks[0].Instrs {
+		if c, ok := in.(*ssa.Call); ok {
+			call = c
+		}
+	}
+	if call == nil {
+		return nil
+	}
+	args := call.Call.Args
+	if !call.Call.IsInvoke() {
+		if g := call.Call.StaticCallee(); g == nil || g.Signature.Recv() == nil || len(args) == 0 {
+			return nil
+		}
+		args = args[1:]
+	}
+	if len(args) != len(f.Params)-1 {
+		return nil
+	}
+	for i, a := range args {
+		if a != ssa.Value(f.Params[i+1]) {
+			return nil
+		}
+	}
+	passThroughCache[f] = call
+	return call
 }
 
 // CalleeIs reports whether the call's callee key equals one of keys.
